@@ -121,7 +121,7 @@ PROPS = {
         'technique': 'totality monitor: panic recorder + supervised child processes (stack overflow/abort attribution) + per-case CPU watchdog over nesting sweeps, length sweeps, corpus mutation, token soup and accepted delimiter sets',
         'claim': 'add_raw_template and render_str are fed (1) every recursive construct nested 1..60 deep and far beyond the limits, (2) every loop-parsed construct chained 10^2..10^4 (quick) / 10^6 (thorough) times, '
                  '(3) token-level mutations (drop, duplicate, swap, truncate at any byte, wrong end names, multi-byte characters next to delimiters) of the repository\'s own snapshot inputs, (4) delimiter-rich token soup, '
-                 '(5) random accepted delimiter sets (ASCII pairs, two-byte characters, members equal to each other or containing `-`/quotes/`%`) with texts built from their members, (6) hostile template names, (7) huge numeric literals. '
+                 '(5) random delimiter sets (ASCII pairs, two-byte characters, members equal to each other or containing `-`/quotes/`%`; one in five with a member of the wrong size, which set_delimiters must refuse or else cope with) with texts built from the members of every accepted set, (6) hostile template names, (7) huge numeric literals. '
                  'Any panic, process death or CPU-budget overrun (confirmed alone with a 10x budget) is a violation; every error is also formatted with Display.',
         'note': 'non-termination is decided as bounded progress: 20 s of CPU per case (sources <= 4 MB), re-run alone with 200 s before it counts; stack verdicts hold for an 8 MiB stack and the optimised verdict build',
         'rule': "one evaluation = one source registered (and rendered as a one-off string unless it calls range); a cell = (family or construct, depth/length class, accepted/rejected)",
@@ -133,12 +133,12 @@ PROPS = {
         'level': 'fault_enumeration',
         'technique': 'fault injection with known coordinates + span checker: one fault of a known byte range is injected into a known template of a valid multi-template set; every datum of the error is recomputed from the source',
         'claim': '55 fault kinds (26 render-time, 16 syntax, 5 add-time references, 8 unterminated constructs) x 7 placements (entry top level, block of parent, block of child with super(), included, component body, '
-                 'included of included, component called from an included template) x random multi-byte/CRLF/blank-line filler before and after, in both registration orders. Checked: template name, span inside the source on '
+                 'included of included, component called from an included template) x random multi-byte/CRLF/blank-line filler before and after, one render/build fault in four spread over several lines, in both registration orders. Checked: template name, span inside the source on '
                  'character boundaries, line/column = position of the byte range, span touches the offending token and stays inside the faulty construct, Display succeeds with `--> name:line:col` and the quoted line, '
                  'one call-site note per call site naming the calling templates in order and designating a line:column inside the call construct, with the call sites at the top level or inside filter sections, set-blocks, loops, ifs and component bodies.',
         'note': 'the per-fault token table is kept by hand and calibrated on the pinned tree (every fault kind yields a located error there); a zero-width span on the first byte of the offending token counts as touching it; resource-limit errors (un-located Msg) are outside this property',
         'rule': "one evaluation = one injected fault; a cell = (fault class, fault kind, placement, line class [first/later line, multi-byte text before the fault on its line, column 0])",
-        'must_observe': ['spans_checked_with_coordinates', 'build_reports_checked', 'display_calls', 'call_site_positions_checked'],
+        'must_observe': ['spans_checked_with_coordinates', 'build_reports_checked', 'display_calls', 'call_site_positions_checked', 'faults_spread_over_lines'],
     },
     'C19': {
         'scale': {'quick': 3, 'thorough': 3},
@@ -182,13 +182,13 @@ PROPS = {
         'legs': {'thorough': ['miri', 'asan', 'fuzz']},
         'level': 'exploration',
         'technique': 'totality monitor (panic recorder, supervised children, UTF-8 validator on raw render_to bytes) + hook-based stack-balance invariant at the end of every interpreter run + registry monitor (unknown names injected at every syntactic position must be rejected at registration, never discovered while rendering)',
-        'claim': '(A) generated multi-template programs are rendered whole, per block and per component against contexts whose variables are rebound to ~65 hostile values (bytes incl. invalid UTF-8, 128-bit extremes, NaN/inf/-0.0, undefined inside containers, 200-element containers, 5 kB strings, depth-8 nesting); '
+        'claim': '(A) generated multi-template programs are rendered whole, per block and per component against contexts whose variables are rebound to ~65 hostile values (bytes incl. invalid UTF-8, 128-bit extremes, NaN/inf/-0.0, undefined inside containers, 40-element containers, 48-character strings, depth-8 nesting); '
                  '(B) 52 expression/statement shapes x all hostile operand pairs; (C) 7 kinds of unknown reference x 46 syntactic positions + 14 special positions x 6 registration modes (alone, in a child block, in an included template, in a parent, after a valid batch, one-off string) must be rejected; '
-                 '(F) 49 replacement scenarios: a valid set whose component provider / parent is then replaced by a version without the referenced name must be rejected and must still render; (D) depth sweeps of nested tags 1-39 and include/extends/component chains 1-32 must render; (E) recursive shapes (block inversion + super(), include of a descendant + super(), components without base case, values nested 100k deep by a template) must end with text or an error. '
+                 '(F) 49 replacement scenarios: a valid set whose component provider / parent is then replaced by a version without the referenced name must be rejected and must still render; (G) break/continue below every nesting (2-4 levels, 1520 shapes) of for / filter section / set-block / component body / if: whatever the parser decides, an accepted shape must render with balanced stacks (hook H3 read per shape) and, where the jump crosses no capture, to the text the loop semantics give; (D) depth sweeps of nested tags 1-39 and include/extends/component chains 1-32 must render; (E) recursive shapes (block inversion + super(), include of a descendant + super(), components without base case, values nested 100k deep by a template) must end with text or an error. '
                  'Hook H3 reports the (value, loop, capture) stack sizes of every successful interpreter run: fresh states must end at (0,0,0), nested runs (blocks, super()) must be balanced.',
         'note': 'stack verdicts hold for an 8 MiB stack and the optimised verdict build; memory/time exhaustion by an accepted template is not looked for (generators cap loop products)',
         'rule': "one evaluation = one render or one registration attempt; a cell = (hostile kind, ok/err) per rebinding, (shape, kinds of v and x, outcome) for the matrix, (position, reference kind, mode) for injected references, (construct, depth class) for sweeps",
-        'must_observe': ['render_end_events', 'unknown_reference_injections', 'matrix_shapes_completed', 'renders_ok', 'renders_err', 'provider_replacements'],
+        'must_observe': ['render_end_events', 'unknown_reference_injections', 'matrix_shapes_completed', 'renders_ok', 'renders_err', 'provider_replacements', 'jump_shapes_accepted', 'jump_shapes_refused'],
         'case_budget_ms': 60000,
     },
     'C10': {
@@ -264,7 +264,7 @@ PROPS = {
         'legs': {'thorough': ['miri']},
         'level': 'exploration',
         'technique': 'two observation modes over generated routing programs: default escaper with disjoint data/text alphabets (no raw special may reach the output), and a marking escape function installed through the public set_escape_fn whose private-use brackets give the exact number of escapings of every data character, with an event count of escaper calls',
-        'claim': 'A route generator sends a source (context string, map field, array item, nested field, literal; incl. strings made only of specials) through 1-6 routing steps drawn from 19 kinds (set, loops in captures, set-blocks, filter sections, includes, component arguments/rest/bodies, ~, ternary, or, index, slice, default, first, join, upper, replace, map-literal field, function result) '
+        'claim': 'A route generator sends a source (context string, map field, array item, nested field, map key reached by a key/value loop or `keys`, literal; incl. strings made only of specials) through 1-6 routing steps drawn from 32 kinds (set, loops in captures, set-blocks, filter sections, includes, component arguments/rest/bodies, ~, ternary, or, index, negative index, slice, default, first, join, upper, replace, every other text-returning built-in filter, array and map filters, loop variables, key/value loops, comprehensions, split, map-literal field, function result, safe followed by a rebuilding step) '
                  'to a print site hitting both sinks (expression write and fused variable-path write), inside and outside captures, directly printed array/map containers, `| safe`, optionally through blocks and super(). Mode B asserts depth >= 1 everywhere when autoescape is on and `safe` unused, exactly 1 in pass-through routes (no double escaping), '
                  'exactly 0 for `| safe`, and depth 0 with zero logged escaper calls when the template is not autoescaped (suffix not matching, custom suffix lists set before or after adding, render_str flag). Every eighth case renders a general generated program (markup-free text, no safe, hostile data) with the default escaper.',
         'note': 'the escape function also validates that its input is valid UTF-8 (it is produced with from_utf8_unchecked); mixed on/off modes inside one render are not generated',
